@@ -152,3 +152,161 @@ class SliceBoxSpec(KernelSpec):
             K = len(cells)
             present = [binop("BitAnd", p, I("u8", (1 << min(8, K - 8 * i)) - 1)) if K - 8 * i < 8 else p for i, p in enumerate(present)][:(K + 7) // 8]
         return (cells, present)
+
+
+# ----------------------------------------------------------------------------------------------------
+# C12.d : row view == column view.  convert_to_output_format builds the rows with Data::get_raw(i) and the columns with
+# BasicTypeColumn::from_boxed_data(slice): both must describe the same cells.
+# ----------------------------------------------------------------------------------------------------
+class RowColumnViewSpec(KernelSpec):
+    """shape = (impl, n): 'i64' Vec<i64>, 'u8' Vec<u8>, 'u32' Vec<u32>, 'f64' Vec<OrderedFloat<f64>>, 'nullable_i64' NullableVec<i64>,
+    'nullable_f64', 'null' usize.  from_boxed_data(data) is executed from its MIR (dyn Data calls: get_type / cast_ref_* / len are the
+    tagged-sequence model, get_raw is dispatched to the real impl); then get_raw(i) of the same data for every row i."""
+    method = ("BasicTypeColumn", None, "from_boxed_data")
+    diff_cases = 2
+
+    def instantiations(self, tier):
+        ks = ["i64", "u8", "f64", "nullable_i64", "null"] + (["u32", "u16", "nullable_f64", "nullable_u8"] if tier == "thorough" else [])
+        return [{"impl": k, "nat": "row_column_view"} for k in ks]
+
+    def shapes(self, tier, inst):
+        if inst["impl"] == "null":
+            return [(0,), (2,)]
+        return [(0,), (2,)] if tier == "quick" else [(0,), (1,), (3,), (9,)]
+
+    def elem_ty(self, inst):
+        return inst["impl"].replace("nullable_", "")
+
+    def sym_inputs(self, inst, shape):
+        n = shape[0]
+        if inst["impl"] == "null":
+            return {"n": I("usize", n)}, []
+        t = self.elem_ty(inst)
+        inp = {"data": [sym(t, f"d{i}") for i in range(n)]}
+        if inst["impl"].startswith("nullable"):
+            inp["present"] = [sym("u8", f"p{i}") for i in range((n + 7) // 8)]
+        return inp, []
+
+    def data_value(self, inst, inp):
+        if inst["impl"] == "null":
+            return inp["n"]
+        t = self.elem_ty(inst)
+        elems = [Agg("struct", [v], name="OrderedFloat") for v in inp["data"]] if t == "f64" else list(inp["data"])
+        vec = VecObj(elems, "ordered_float::OrderedFloat<f64>" if t == "f64" else t)
+        if inst["impl"].startswith("nullable"):
+            return Agg("struct", [vec, VecObj(list(inp["present"]), "u8")], name="NullableVec")
+        return vec
+
+    def explore(self, ctx, ex, fn, inst, shape, inp, pre):
+        from ..pyengine import run_sequence
+        n = shape[0]
+        dv = self.data_value(inst, inp)
+        env = {"data": Cell(dv)}
+        t = self.elem_ty(inst)
+        et = {"f64": "ordered_float::OrderedFloat<f64>"}.get(t, t)
+        self_ty = "usize" if inst["impl"] == "null" else (f"NullableVec<{et}>" if inst["impl"].startswith("nullable") else f"Vec<{et}>")
+        r = ex.resolve_method(self_ty, "Data", "get_raw")
+        if r is None:
+            raise interp.Unsupported(f"no impl Data for {self_ty} with get_raw")
+        graw, gb = r
+        calls = [(fn, lambda env: [Ref(Cell(deep(env["data"].v)), (), None, False, True)], {}, "col")]
+        for i in range(n):
+            calls.append((graw, lambda env, i=i: [Ref(env["data"]), I("usize", i)], dict(gb), f"raw{i}"))
+        outs = run_sequence(ex, pre, env, calls)
+        self._n = n
+        return outs
+
+    def view(self, state_or_value, n):
+        if isinstance(state_or_value, dict):
+            return state_or_value
+        env = state_or_value.env
+        col = env["col"].v
+        k = col.variant
+        if k == "Null":
+            cells = ("Null", col.fields[0])
+        elif k in ("Int", "Float"):
+            cells = (k, list(col.fields[0].elems))
+        elif k == "Mixed":
+            cells = ("Mixed", [rawview(x) for x in col.fields[0].elems])
+        else:
+            cells = (k, None)
+        return {"col": cells, "rows": [rawview(env[f"raw{i}"].v) for i in range(n)]}
+
+    def post(self, inst, shape, inp, value, state=None):
+        n = shape[0]
+        v = self.view(state if state is not None else value, n)
+        kind, cells = v["col"]
+        rows = v["rows"]
+        conds = []
+        if kind == "Null":
+            conds.append(("an all-NULL column has as many cells as rows, every row reads NULL", band(binop("Eq", cells, I("usize", n)), B(all(r[0] == "n" for r in rows)))))
+            return conds
+        if cells is None:
+            return [("the column view is Int, Float, Mixed or Null", B(False))]
+        conds.append(("the column view has one cell per row", B(len(cells) == n)))
+        if len(cells) != n:
+            return conds
+        for i in range(n):
+            r = rows[i]
+            c = cells[i]
+            if kind == "Int":
+                conds.append((f"row {i}: row view and column view agree", B(r[0] == "i") if r[0] != "i" else binop("Eq", r[1], c)))
+            elif kind == "Float":
+                conds.append((f"row {i}: row view and column view agree", B(r[0] == "f") if r[0] != "f" else binop("Eq", I("u64", r[1].v), I("u64", c.v))))
+            else:
+                same = B(r[0] == c[0]) if (r[0] != c[0] or r[0] == "n") else binop("Eq", I("u64", r[1].v) if r[0] == "f" else r[1], I("u64", c[1].v) if c[0] == "f" else c[1])
+                conds.append((f"row {i}: row view and column view agree (value or NULL)", same))
+        return conds
+
+    def random_inputs(self, rng, inst, shape):
+        inp, _ = self.sym_inputs(inst, shape)
+        out = {}
+        for k, v in inp.items():
+            out[k] = v if isinstance(v, I) else [I(x.ty, rng.getrandbits(62) if x.ty == "f64" else rnd_int(rng, x.ty)) for x in v]
+        return out
+
+    def native(self, inst, shape, inp):
+        if inp is None:
+            return ("row_column_view", [])
+        if inst["impl"] == "null":
+            return ("row_column_view", ["null", inp["n"].v])
+        toks = [inst["impl"], fmt_ints(inp["data"])]
+        if "present" in inp:
+            toks.append(fmt_ints(inp["present"]))
+        return ("row_column_view", toks)
+
+    def parse_native(self, inst, shape, toks):
+        # <kind> <cells> | <rows>
+        def cell(x):
+            return ("n", None) if x == "n" else (x[0], I("i64" if x[0] == "i" else "f64", int(x[1:])))
+        kind = toks[0]
+        rows = [cell(x) for x in toks[2].split(",")] if toks[2] != "-" else []
+        if kind == "Null":
+            return {"col": ("Null", I("usize", int(toks[1]))), "rows": rows}
+        items = toks[1].split(",") if toks[1] != "-" else []
+        if kind == "Int":
+            return {"col": ("Int", [I("i64", int(x)) for x in items]), "rows": rows}
+        if kind == "Float":
+            return {"col": ("Float", [I("f64", int(x)) for x in items]), "rows": rows}
+        return {"col": ("Mixed", [cell(x) for x in items]), "rows": rows}
+
+    def native_view(self, inst, shape, v, st):
+        d = self.view(st, shape[0])
+        return d
+
+
+def rawview(x):
+    """RawVal -> ('i', I) | ('f', I f64) | ('s', bytes) | ('n', None)"""
+    if x.variant == "Null":
+        return ("n", None)
+    if x.variant == "Int":
+        return ("i", x.fields[0])
+    if x.variant == "Float":
+        f = x.fields[0]
+        return ("f", f.fields[0] if isinstance(f, Agg) else f)
+    return ("s", x.fields[0])
+
+
+def deep(v):
+    from ..mirsym.values import deep_clone
+    return deep_clone(v)
